@@ -16,7 +16,7 @@ from .ops import GuardB, mkstr, mkseq, to_zstr, canon, subst
 from .path import Path, explore, fresh_name
 from .sorts import SortReg, TypeDesc, ANY
 from .values import (Atomic, ModuleV, ClassV, BuiltinClass, FuncV, PropV, BoundMethod, BuiltinFn, EnumV,
-                     ObjV, DtV, StrT, JoinT, LitB, CompB, RangeB, SeqT, SeqV, SetV, DictV, ExcV,
+                     ObjV, DtV, RecV, StrT, JoinT, LitB, CompB, RangeB, SeqT, SeqV, SetV, DictV, ExcV,
                      RaiseSignal, ReturnSignal, BreakSignal, ContinueSignal, Infeasible, Unsupported, FrameViolation,
                      is_z3, is_sym_bool)
 
@@ -262,7 +262,7 @@ class Interp:
             return BuiltinClass.get('list')
         if isinstance(v, SetV):
             return BuiltinClass.get('set')
-        if isinstance(v, DictV):
+        if isinstance(v, (DictV, RecV)):
             return BuiltinClass.get('dict')
         if isinstance(v, tuple):
             return BuiltinClass.get('tuple')
@@ -357,6 +357,9 @@ class Interp:
             if v.dom is None:
                 return len(v.concrete) > 0
             return v.dom != z3.EmptySet(z3.StringSort())
+        if isinstance(v, RecV):
+            return bool(v.schema.consts) or any(k not in v.schema.optional for (k, _) in v.schema.fields) or \
+                self.rec_any_present(v)
         if isinstance(v, (ObjV, DtV)):
             for special in ('__bool__', '__len__'):
                 f = v.cls.lookup(special)
@@ -640,7 +643,7 @@ class Interp:
             return to_zstr(v)
         if is_z3(v):
             return v
-        if isinstance(v, DtV):
+        if isinstance(v, (DtV, RecV)):
             return v.expr
         if isinstance(v, EnumV):
             return self.sorts.enum_const(v)
@@ -701,6 +704,10 @@ class Interp:
                 self.apply_class_invs(v, path)
                 return v
             return OpaqueV(expr, cls.name)
+        if k == 'rec':
+            v = RecV(td.args[0], expr)
+            self.apply_rec_invs(v, path)
+            return v
         if k == 'list':
             return SeqV(self.seq_of_base(expr, td.args[0], path), frozen=True)
         if k == 'opt':
@@ -731,6 +738,8 @@ class Interp:
             return DtV(td.args[0], expr)
         if k == 'union':
             return UnionV(td.args[0], expr)
+        if k == 'rec':
+            return RecV(td.args[0], expr)
         return OpaqueV(expr, 'elem')
 
     def apply_class_invs(self, v: DtV, path):
@@ -740,6 +749,13 @@ class Interp:
                     f = inv(self, path, v)
                     if f is not None and f is not True:
                         path.define(f)
+
+    def apply_rec_invs(self, v: RecV, path):
+        """well-formedness facts of a typed JSON object (registered per schema name in self.rec_invs)"""
+        for inv in getattr(self, 'rec_invs', {}).get(v.schema.name, ()):
+            f = inv(self, path, v)
+            if f is not None and f is not True:
+                path.define(f)
 
     def fresh_dt(self, cls: ClassV, name, path):
         v = DtV(cls, z3.Const(name, self.sorts.sort_of_class(cls)))
@@ -846,6 +862,44 @@ class Interp:
             return self.wrap(inner, acc(obj.expr), path)
         acc = self.sorts.accessor(obj.cls, fname)
         return self.wrap(td, acc(obj.expr), path)
+
+    # ---- typed JSON objects ----------------------------------------------------------------------------
+    def rec_present(self, r: RecV, key):
+        """z3 Bool: the optional key is present"""
+        td = dict(r.schema.fields)[key]
+        s, none, some, val = self.sorts.sort_of_opt(td)
+        return self.sorts.rec_accessor(r.schema, key)(r.expr) != none
+
+    def rec_any_present(self, r: RecV):
+        res = False
+        for k in r.schema.optional:
+            res = self.or_(res, self.rec_present(r, k))
+        return res
+
+    def rec_has_key(self, r: RecV, key, path):
+        if not isinstance(key, str):
+            from .builtins_ import check_hashable
+            check_hashable(self, key)
+            if isinstance(key, StrT):
+                raise Unsupported('symbolic key looked up in a typed JSON object')
+            return False
+        if key in r.schema.consts:
+            return True
+        if key in r.schema.optional:
+            return self.rec_present(r, key)
+        return key in dict(r.schema.fields)
+
+    def rec_get(self, r: RecV, key, path):
+        if isinstance(key, str) and key in r.schema.consts:
+            return r.schema.consts[key]
+        present = self.rec_has_key(r, key, path)
+        if present is False or (present is not True and not path.branch(present)):
+            self.raise_builtin('KeyError', repr(key))
+        td = dict(r.schema.fields)[key]
+        z = self.sorts.rec_accessor(r.schema, key)(r.expr)
+        if key in r.schema.optional:
+            z = self.sorts.sort_of_opt(td)[3](z)
+        return self.wrap(td, z, path)
 
     def union_getattr(self, u: UnionV, name, path):
         uni = u.uni
@@ -1242,6 +1296,8 @@ class Interp:
             if not isinstance(item, (str, StrT)):
                 return False
             return z3.IsMember(to_zstr(item), container.sym)
+        if isinstance(container, RecV):
+            return self.rec_has_key(container, item, path)
         if isinstance(container, DictV):
             from .builtins_ import check_hashable
             check_hashable(self, item)
